@@ -10,6 +10,12 @@
       condition is equivalent (Hall's condition on an interval order) to an
       injective matching of every TunnelRecv to a distinct earlier TunnelSent
       of the other side and same kind at least one delay before;
+    - [C15_matching]: the literal form, derived from the counting condition by
+      a purely combinatorial lemma ([SimMatching.dominated_matching], whose
+      converse [prefix_dominated] is proved too): there is an injective
+      assignment g of the TunnelRecv events of side X (kind k) to TunnelSent
+      events of the other side of the same kind, each sent at least one network
+      delay before the receive it is matched with;
     - [C15_conservation]: each side's NormalSent events are at most its share
       of the input, its normal TunnelSent at most those, the peer's normal
       TunnelRecv at most those, the peer's NormalRecv at most those: normal
@@ -20,7 +26,7 @@
     - [C15_sorted]: the returned trace is ordered by time.
     (Without integration delays: the model has none.) *)
 From MB Require Import Model.Framework Model.Sim.
-From MB Require Proofs.SimBasics Proofs.SimConserve.
+From MB Require Proofs.SimBasics Proofs.SimConserve Proofs.SimMatching.
 Import ListNotations SimConserve.
 Open Scope N_scope.
 
@@ -32,6 +38,24 @@ Theorem C15_causality : forall fuel cc sc tp sq delay pps args out,
      <= cnt (fun e => is_ts (negb X) k e && sent_by delay T e) out)%nat.
 Proof. exact tunnel_causality. Qed.
 Print Assumptions C15_causality.
+
+
+Theorem C15_matching : forall fuel cc sc tp sq delay pps args out,
+  init_simq sq -> full_args args ->
+  sim_advanced fuel cc sc tp sq delay pps args = Ok out ->
+  forall X k,
+    let recvs := filter (is_tr X k) out in
+    let sents := filter (is_ts (negb X) k) out in
+    exists g : nat -> nat,
+      (forall i, (i < length recvs)%nat -> (g i < length sents)%nat) /\
+      (forall i j, (i < length recvs)%nat -> (j < length recvs)%nat -> i <> j -> g i <> g j) /\
+      (forall i er, nth_error recvs i = Some er ->
+         exists es, nth_error sents (g i) = Some es /\
+                    In er out /\ is_tr X k er = true /\
+                    In es out /\ is_ts (negb X) k es = true /\
+                    (se_time es + Z.of_N delay <= se_time er)%Z).
+Proof. exact SimMatching.tunnel_matching_events. Qed.
+Print Assumptions C15_matching.
 
 Theorem C15_conservation : forall fuel cc sc tp sq delay pps args out,
   init_simq sq -> full_args args ->
